@@ -71,6 +71,7 @@ LEVEL = {
     "technique": "static analysis: exceptional-successor coverage on a CFG with exception edges",
 }
 LEVEL["decided"] += ' R18.4 shares the enter_context table R14.4 (a manager is registered only after it was entered).'
+LEVEL["decided"] += ' (R18.9) the scope primitive closes whatever the exit reason (R04.0, shared): a cancellation is not told from an ordinary exit.'
 LEVEL["decided"] += ' (R18.7) leaving a scoped_iter block closes the real iterator on every path (R08.3, shared).'
 LEVEL["decided"] += ' R18.4 also: an exit registered while the stack unwinds from a cancelled block has run when the unwind is over (R14.12, shared); (R18.8) scoped_iter chooses the neutral context by asking aiter(iterable) for aclose (R08.4, shared).'
 
@@ -113,6 +114,12 @@ def run(ctx) -> None:
     ctx.rule("R18.8", "a scoped_iter block gets the closing context whenever the iterator it uses can be closed: the neutral context "
                       "is chosen by asking aiter(iterable), not the iterable, for aclose (R08.4, shared)")
     c08.r08_4(Relabel(ctx, "R18.8"))
+    # R18.1 counts the exit of ``async with ScopedIter(..)`` as the close that a cancelled step is owed: that holds only if the
+    # primitive closes whatever the exit reason is (a cancellation is a BaseException, not an Exception)
+    from . import c04
+    ctx.rule("R18.9", "the scope primitive closes its iterator on every path and never looks at the exit reason: cancellation "
+                      "(a BaseException) is cleaned up after like any other exit (R04.0, shared)")
+    c04.r04_0(Relabel(ctx, "R18.9"))
 
 
 def r18_2(ctx) -> None:
